@@ -29,6 +29,11 @@ pub fn programs_upto(tid: usize, base: i32, len: usize, reduced: bool) -> Vec<Ve
     out
 }
 
+thread_local! {
+    /// the schedule of the execution being judged (for oracles that need the order of lock acquisitions)
+    pub static LAST_SCHEDULE: std::cell::RefCell<Vec<String>> = std::cell::RefCell::new(vec![]);
+}
+
 pub struct PairResult {
     pub executions: u64,
     pub points: u64,
@@ -153,6 +158,7 @@ pub fn explore_programs(prop: &str, setup: &Setup, programs: &[Vec<String>], bou
             }
             return;
         }
+        LAST_SCHEDULE.with(|l| *l.borrow_mut() = schedule.clone());
         if let Some((clause, detail)) = extra(&ops, &fin, &spectator_msgs) {
             if seen_clause.insert(clause.clone()) {
                 found.push(Violation { clause, shape: shape_base.clone(), detail, replay: json!({"engine":"ilv","property":prop,"programs":programs,"choices":choices,"schedule":schedule}) });
